@@ -224,6 +224,7 @@ func init() {
 			qsBrokerShutdown(&rep)
 			qsBlockedWriter(&rep)
 			qsTearDown(&rep)
+			qsAfterTearDown(&rep)
 		}
 		json.NewEncoder(os.Stdout).Encode(rep)
 		return 0
@@ -601,4 +602,103 @@ func qsTearDown(rep *qsReport) {
 	}
 	rep.Scenarios++
 	rep.TimersArmed += vtime.Created()
+}
+
+// qsFailWriter fails every write.
+type qsFailWriter struct{}
+
+func (qsFailWriter) Write([]byte) (int, error) { return 0, io.ErrClosedPipe }
+
+// qsAfterTearDown: C04's "once its transport streams are closed nothing
+// belonging to the ended shell keeps running", with time passing: a shell that
+// ended (in each of three ways, one of them a failed write of an input line)
+// and was announced gone; then twenty minutes on the virtual clock.  Nothing
+// more is said to the operator, and no timer is left armed.
+func qsAfterTearDown(rep *qsReport) {
+	for _, how := range []string{"input-write-fails", "output-eof", "cancelled"} {
+		c := qsCase{Flavour: "vclock", Kind: "after-tear-down/" + how, Spell: "20m0s"}
+		vtime.Reset(time.Now())
+		ich := make(chan string, 16)
+		och := make(chan opshell.CLine, 4096)
+		b, err := hworld.NewBroker(ich, och)
+		if nil != err {
+			ev.Broken("%s", err)
+		}
+		ctx, cancel := context.WithCancel(context.Background())
+		doRet := make(chan error, 1)
+		go func() { doRet <- b.Do(ctx) }()
+		quiet := slog.New(slog.NewTextHandler(io.Discard, nil))
+		waitFor := func(sub string) bool {
+			deadline := time.After(hworld.Watchdog)
+			for {
+				select {
+				case cl := <-och:
+					if strings.Contains(cl.Line, sub) {
+						return true
+					}
+				case <-deadline:
+					return false
+				}
+			}
+		}
+		sctx, scancel := context.WithCancel(context.Background())
+		var in io.Writer = io.Discard
+		if "input-write-fails" == how {
+			in = qsFailWriter{}
+		}
+		pr, pw := io.Pipe()
+		inDone, outDone := make(chan struct{}), make(chan struct{})
+		go func() { defer close(inDone); b.ConnectIn(sctx, quiet, "in", in, "k") }()
+		go func() { defer close(outDone); b.ConnectOut(sctx, quiet, "out", pr, "k") }()
+		if !waitFor(iobroker.ShellReadyMessage) {
+			ev.Broken("quiet-spell worker (after tear-down): the shell never became ready")
+		}
+		switch how {
+		case "input-write-fails":
+			ich <- "a line the shell's stream does not take"
+		case "output-eof":
+			pw.Close()
+		case "cancelled":
+			scancel()
+		}
+		gone := waitFor(iobroker.ShellDisconnectedMessage)
+		for _, d := range []chan struct{}{inDone, outDone} {
+			select {
+			case <-d:
+			case <-time.After(hworld.Watchdog):
+				gone = false
+			}
+		}
+		scancel()
+		pw.Close()
+		pr.Close()
+		if gone {
+			/* Twenty minutes pass. */
+			for i := 0; i < 60; i++ {
+				time.Sleep(time.Millisecond)
+				rep.Firings += vtime.AdvanceN(20*time.Second, func() { time.Sleep(time.Millisecond) }, qsMaxFirings)
+			}
+			time.Sleep(5 * time.Millisecond)
+			var late []string
+			for more := true; more; {
+				select {
+				case cl := <-och:
+					late = append(late, cl.Line)
+				default:
+					more = false
+				}
+			}
+			if 0 != len(late) || 0 != len(vtime.Pending()) {
+				rep.Viols = append(rep.Viols, qsViol{Prop: "C04", Sig: "quiet-spell/after-tear-down/" + how, Case: c,
+					What: fmt.Sprintf("a shell that ended (%s), was announced gone and whose Connect calls have returned; twenty minutes later: %d more notice(s) about it (%q), %d timer(s) still armed", how, len(late), trunc80(strings.Join(late, " | ")), len(vtime.Pending()))})
+			}
+		}
+		cancel()
+		select {
+		case <-doRet:
+		case <-time.After(hworld.Watchdog):
+		}
+		rep.Scenarios++
+		rep.TimersArmed += vtime.Created()
+	}
 }
